@@ -28,10 +28,12 @@ def main():
              "label": "2 proxies (optionally one session id) x 2 clients: " + U},
             {"harness": "c03", "cfg": {"P": "2", "C": "2", "pnat": "3", "loads": "2", "cnat": "3", "fp": "2"}, "budget_s": 30,
              "label": "2 proxies x 2 clients, the first optionally naming a bridge that is not listed: " + U},
+            {"harness": "c03", "cfg": {"P": "2", "C": "2", "pnat": "4", "loads": "2", "cnat": "3", "late": "1"}, "budget_s": 30,
+             "label": "2 proxies (4 NAT kinds) x 2 clients that come at 1 s or at 15 s, after every poll has ended unanswered (then all are refused, none waits): " + U},
             {"harness": "c03", "cfg": {"P": "3", "C": "2", "pnat": "1", "loads": "3", "cnat": "2", "stagger": "1"}, "budget_s": 30,
              "label": "3 proxies of one pool (all load triples over {0,8,16}) arriving together or 100 ms apart x 2 clients: " + U},
         ]
-        total = 210
+        total = 240
     else:
         passes = [
             {"harness": "c03", "cfg": {"P": "2", "C": "1"}, "budget_s": 100, "label": "2 proxies x 1 client, full alphabets: " + U},
